@@ -92,6 +92,7 @@ func aggregationOver(tag string, opAlpha []op, depth, weight int) hlib.Suite {
 			input := strings.Join(names, " ")
 			r.SampleCase(input)
 			lastS, lastF := uint64(0), uint64(0)
+			nsnap := 0
 			for _, i := range seq {
 				o := opAlpha[i]
 				r.Step()
@@ -106,7 +107,9 @@ func aggregationOver(tag string, opAlpha []op, depth, weight int) hlib.Suite {
 				case "snap", "total":
 					var sn progress.Snapshot
 					if o.kind == "snap" {
-						sn = st.Snapshot(time.Second)
+						// the period is the caller's label for the interval, whatever its value: 1 s, 0 and -1 s in turn
+						sn = st.Snapshot([]time.Duration{time.Second, 0, -time.Second}[nsnap%3])
+						nsnap++
 						cmpSnap(r, "period", sn.SuccessfulIterationDurationsForPeriod, m.period, input)
 					} else {
 						sn = st.Total()
